@@ -10,8 +10,8 @@ package main
 //   purity           the same (bytes, name) requests repeated in other orders in ONE loader
 //                    process (answers must be identical; lines are `c13 load`, so the pure
 //                    model is compared as well) and an in-process aliasing test
-//   kd-wrap          descriptor symbols whose offset from .rodata is within 64 of 2^64
-//                    (correspondence only; see theorem named_load_faults_exactly)
+//   kd-wrap          descriptor symbols whose offset from .rodata is within 64 of 2^64: must be
+//                    ignored, not panic (oracle C13.kd.out-of-range-panic; repaired defect)
 
 import (
 	"bufio"
@@ -148,8 +148,8 @@ func (e *c13env) deepAccessors(rng *Rng, n int) {
 
 		d := c13descriptor(rng)
 		if rng.Chance(30) {
-			c13put(d, 44, 4, uint64(rng.U64()))
 			c13put(d, 48, 4, uint64(rng.U64()))
+			c13put(d, 52, 4, uint64(rng.U64()))
 		}
 		f = catch(func() { m = insts.VerifParseV5KernelDescriptor(d) })
 		ans = "fault:" + f
@@ -158,8 +158,8 @@ func (e *c13env) deepAccessors(rng *Rng, n int) {
 		}
 		r.Case("c13 kdacc "+hexb(d), ans)
 		r.Checked("deep-kd-normalised-fields")
-		// the loader's own slots: rsrc1 @44, rsrc2 @48, rewritten field by field
-		want := c13accWant(uint32(c13le(d, 44, 4)), c13normWant(uint32(c13le(d, 48, 4)), c13le(d, 8, 4) > 0))
+		// ABI slots: rsrc1 @48, rsrc2 @52, rewritten field by field
+		want := c13accWant(uint32(c13le(d, 48, 4)), c13normWant(uint32(c13le(d, 52, 4)), c13le(d, 8, 4) > 0))
 		if ans != want {
 			r.Failf("C13.deep.kd-normalised-fields", hexb(d), "methods %s ; field-level rewriting %s", ans, want)
 		}
@@ -436,6 +436,13 @@ func (e *c13env) deepKdWrap(rng *Rng, n int) {
 		res, ok := e.loadCase("deep.kd-wrap", c13writeELF(o), "", "k")
 		if ok {
 			e.r.Count("deep.kd-wrap." + strings.SplitN(res, " ", 2)[0])
+			// a descriptor symbol outside .rodata is ignored like any other out-of-range one:
+			// the kernel loads as raw code, the loader does not panic
+			e.r.Checked("kd-out-of-range")
+			if !strings.HasPrefix(res, "ok v=5 ") || c13field(res, "data") == "" {
+				e.r.Failf("C13.kd.out-of-range-panic", fmt.Sprintf(".rodata addr=%x len=%d ; k.kd value=%x size=64", roAddr, len(ro), roAddr-below),
+					"descriptor symbol %d bytes below .rodata (uint64 offset %x): loader answered %s", below, roAddr-below-roAddr, res)
+			}
 		}
 	}
 }
